@@ -299,12 +299,31 @@ def run(pid, tier, seed, rundir, model_run):
                           "acked": [(k, clients[k[0]][k[1]]) for k, v in done if v["reply"] and v["reply"].startswith("put:1:")]})
         all_queries.extend(qs)
 
+    def mkput(p_, exp, c_):
+        h_ = bytes.fromhex(blake3_hex([c_])[0])
+        b_ = H.frame(H.req_put(p_, exp, len(c_), h_)) + c_
+        return {"kind": "put", "path": p_, "wire": p_, "content": c_, "variant": "ok", "pieces": [b_], "exp": exp, "hash": h_, "bytes": b_, "desc": f"put {p_} {len(c_)}B corpus in 1 piece(s)"}
+
+    def corpus_cases():
+        # (seed C03-I) f = v1; a stale writer S lands at f.conflict-<S>; a third client commits DIFFERENT content of the SAME LENGTH
+        # at that very name (a repaired copy pushed back with a correct CAS); the stale writer retries: its bytes must go to the
+        # next free name, the acknowledged commit at the conflict name stays
+        v1, v2, stale, fixed = b"version-1\n", b"version-2\n", b"flag=on;  stale edit\n", b"flag=off; stale edit\n"
+        hv1 = bytes.fromhex(blake3_hex([v1])[0]); hst = bytes.fromhex(blake3_hex([stale])[0])
+        cn = f"f.conflict-{hst.hex()[:12]}"
+        yield {"f": v1}, [[mkput("f", hv1, v2)], [mkput("f", hv1, stale), mkput("f", hv1, stale)], [mkput(cn, hst, fixed)]], \
+            [(0, 0, 0), (1, 0, 0), (2, 0, 0), (1, 1, 0)]
+
     for ci in range(ncases):
         tree = {}
         for _ in range(rng.below(3)):
             tree[rng.pick(PATHS)] = rng.pick(CONTENTS)
         nclients = rng.range(2, 3)
         clients = [gen_ops(rng, tree, pid) for _ in range(nclients)]
+        forced_order = None
+        if ci < 1:
+            tree, clients, forced_order = list(corpus_cases())[ci]
+            tree = dict(tree); nclients = len(clients)
         # schedule: a random interleaving of (client, op index, piece index)
         cursors = [[0, 0] for _ in clients]
         order = []
@@ -319,8 +338,10 @@ def run(pid, tier, seed, rundir, model_run):
                 cursors[c][1] += 1
             else:
                 cursors[c] = [oi + 1, 0]
+        if forced_order is not None:
+            order = list(forced_order)
         kill_at = None
-        if pid == "C10" and rng.coin(1, 3):
+        if pid == "C10" and rng.coin(1, 3) and forced_order is None:
             kill_at = rng.below(len(order))
         allowed = set(tree.values()) | {op["content"] for cl in clients for op in cl if op["kind"] == "put" and op["variant"] == "ok"}
         with Sandbox(pid) as sb:
